@@ -13,14 +13,14 @@ run() {  # prop file regex replacement [check args...]
   if echo "$out" | grep -q "MUTATION DID NOT APPLY"; then echo "STALE   $desc"; fail=1; return; fi
   if echo "$out" | grep -q "^VIOLATION property=$1 "; then echo "caught  $desc"; else echo "MISSED  $desc"; echo "$out" | tail -2; fail=1; fi
 }
-run C14 cubed/primitive/rechunk.py 'int\(headroom\)' 'int(headroom) + 1' --only consolidate_chunks
-run C04 cubed/core/plan.py 'projected_mem > op.allowed_mem' 'projected_mem >= op.allowed_mem + 1' --only _find_ops_exceeding_memory
+run C14 cubed/vendor/rechunker/algorithm.py 'int\(headroom\)' 'int(headroom) + 1' --only consolidate_chunks
+run C04 cubed/core/plan.py 'op.projected_mem > op.allowed_mem' 'op.projected_mem >= op.allowed_mem' --only _find_ops_exceeding_memory
 run C04 cubed/primitive/blockwise.py 'projected_mem = max\(\n        primitive_op.projected_mem,' 'projected_mem = min(\n        primitive_op.projected_mem,' --only fuse_multiple
-run C15 cubed/vendor/dask/blockwise.py 'index_pos, zero_pos = {}, {}' 'zero_pos, index_pos = {}, {}'
+run C15 cubed/vendor/dask/blockwise.py 'zero_pos\[i\] if nb == 1 else index_pos\[i\]' 'index_pos[i] if nb == 1 else zero_pos[i]'
 run C16 cubed/storage/zarr.py 'self.kwargs = kwargs' 'self.kwargs = kwargs\n        self.create()'
 run C07 cubed/runtime/pipeline.py 'for names in nx.topological_generations\(dag\):' 'for names in [list(nx.topological_sort(dag))]:' --only visit_node_generations
 run C09 cubed/core/plan.py 'target.nchunks_initialized != target.nchunks' 'target.nchunks_initialized < target.nchunks // 2' --only already_computed
-run C08 cubed/runtime/asyncio.py 'start_times.update\(' 'start_times = dict(' --only async_map_unordered
+run C08 cubed/runtime/asyncio.py 'start_times.update\(\{f: t for f in new_tasks.keys\(\)\}\)' 'start_times = {f: t for f in new_tasks.keys()}' --only async_map_unordered
 run C02 cubed/core/optimization.py 'fused_dag\.add_edge\(pre_input, name\)' 'pass' --only multiple_inputs_optimize_dag
 run C02 cubed/core/optimization.py 'if len\(array_names_intersect\) > 0:' 'if False:' --only multiple_inputs_optimize_dag
 run C02 cubed/core/optimization.py 'and out_degree_unique\(dag, input\) == 1' 'and out_degree_unique(dag, input) >= 1' --only optimize_dag
